@@ -84,7 +84,6 @@ static inline int cur_char(char_stream_t cs) {
 }
 
 static inline int next_char(char_stream_t cs) {
-  assert(cs->a[cs->i] != '\n');
   cs->i++;
   return cur_char(cs);
 }
